@@ -75,6 +75,8 @@ def root_config(case):
         lines.append("dialect = ansi")
     if case.get("skip_fail"):
         lines.append("large_file_skip_fail = True")
+    if case.get("warnings"):
+        lines.append("warnings = " + case["warnings"])
     lines += ["", "[sqlfluff:templater:jinja:context]", "col = a", "tbl = t1", "flag = True"]
     return "\n".join(lines) + "\n"
 
@@ -149,6 +151,8 @@ def cases(draw, tier):
         "cli_dialect": draw(st.sampled_from([True, True, False])),
         "cli_extra": draw(st.sampled_from(CLI_EXTRA)),
         "skip_fail": draw(st.booleans()),
+        # rules (and PRS) downgraded to warnings: the flag travels with every violation from the worker to the parent
+        "warnings": draw(st.sampled_from([None, None, "LT01", "CP01,LT01,LT02", "PRS", "LT01,LT12,PRS"])),
     }
 
 
@@ -165,7 +169,8 @@ def _hand(cmd, processes, paths, delays, sub_cfg, **kw):
         {"path": "other/big.sql", "kind": "oversized", "sql": oversized_text(10)},
     ]
     case = {"files": files, "sub_cfg": sub_cfg, "cmd": cmd, "processes": processes, "paths": paths,
-            "delays": delays, "cli_dialect": True, "cli_extra": [], "skip_fail": False}
+            "delays": delays, "cli_dialect": True, "cli_extra": [], "skip_fail": False,
+            "warnings": kw.get("warnings")}
     case.update(kw)
     return case
 
